@@ -95,6 +95,35 @@ def permutedOuter (n maxD : Nat) (red : Nat → List (List Int)) :
 def vPermuted (n : Nat) (red : Nat → List (List Int)) : Except PyErr KeyVerdict :=
   permutedOuter n (bitLength n / 8) red [8, 16, 32, 64]
 
+/-- largest `e` with `p^e ≤ bound` (the exact value of `int(math.log(bound, p))` away from float
+rounding at exact powers), for `p ≥ 2`, `bound ≥ 1`. -/
+def floorLogAux (p bound : Nat) : Nat → Nat → Nat → Nat
+  | 0, _, e => e
+  | fuel + 1, acc, e => if acc * p ≤ bound then floorLogAux p bound fuel (acc * p) (e + 1) else e
+
+def floorLog (p bound : Nat) : Nat := if p < 2 then 0 else floorLogAux p bound (bitLength bound) 1 0
+
+/-- the constructor of `CheckPollardpm1`: with a user `bound`, every prime below it raised to
+`int(math.log(bound, p))`; by default every prime below `2^20`, the first 150 of them raised to
+`int(math.log(2^64, p))`. `exps` is the float oracle (the exponents actually used), one per
+raised prime. -/
+def pollardPowers (primes : List Nat) (exps : List Nat) : List Nat :=
+  match primes, exps with
+  | p :: ps, e :: es => p ^ e :: pollardPowers ps es
+  | ps, [] => ps
+  | [], _ => []
+
+def pollardProduct (bound : Option Nat) (exps : List Nat) : Nat :=
+  match bound with
+  | some b => fastProduct (pollardPowers (sieve b) exps)
+  | none => fastProduct (pollardPowers (sieve (2 ^ 20)) exps)
+
+/-- the exponents the documentation prescribes. -/
+def pollardExpsDocumented (bound : Option Nat) : List Nat :=
+  match bound with
+  | some b => (sieve b).map (fun p => floorLog p b)
+  | none => ((sieve (2 ^ 20)).take 150).map (fun p => floorLog p (2 ^ 64))
+
 /-- `CheckPollardpm1` for one key, given the constructor's product `m`. -/
 def vPollard (n m gcdBound : Nat) : KeyVerdict :=
   let r := pollardPm1 n m gcdBound
